@@ -71,6 +71,17 @@ type corpusEntry struct {
 	expect  string      // expected result class
 	what    string
 	long    bool // a list with a declared length of 65..1024
+	dyn     bool // the message is built per call: an instance with a wire field no Go type has, under a NEW name every time
+}
+
+var c12dynCounter int64
+
+// dynWire: Inner{a: 5, s: "q"} with an unknown field in between whose name no earlier call has used
+func dynWire() []byte {
+	n := atomic.AddInt64(&c12dynCounter, 1)
+	o := hspec.Object("Inner", []string{"a", fmt.Sprintf("added%d", n), "s"}, hspec.Int(5), hspec.Int(int32(n)), hspec.String("q"))
+	b, _ := hspec.Encode(o, hspec.Canonical{}, hspec.EncOpts{})
+	return b
 }
 
 var instKinds = []string{"NewSerializer", "NewEncoder+NewDecoder", "pools"}
@@ -261,6 +272,25 @@ func buildCorpus(seed int64, env *Env, tm map[string]reflect.Type, nm map[string
 		b, _ := hspec.Encode(o, hspec.Canonical{}, hspec.EncOpts{})
 		corpus = append(corpus, corpusEntry{wire: b, what: "decode class registered through a pointer type"})
 	}
+	// unknown wire fields under names never seen before by this PROCESS (whatever a decoder remembers
+	// about unknown fields must not be unsynchronised package-level state); many entries, so that
+	// several decoders are on that path at once
+	for k := 0; k < 60; k++ {
+		corpus = append(corpus, corpusEntry{dyn: true, what: "decode an unknown field under a new name"})
+	}
+	// input that parses but makes the runtime panic inside the decoder (a map keyed by a list / by a map):
+	// every entry point recovers; whatever it reports must be its own
+	for k := 0; k < 30; k++ {
+		key := []byte{0x57, byte(0x90 + k), 'Z'}
+		if k%2 == 1 {
+			key = []byte{'H', byte(0x90 + k), 0x91, 'Z'}
+		}
+		b := append(append([]byte{'H'}, key...), 0x91, 'Z')
+		for d := 0; d < k%4; d++ {
+			b = append(append([]byte{0x57}, b...), 'Z')
+		}
+		corpus = append(corpus, corpusEntry{damaged: true, wire: b, what: "decode a map keyed by a container"})
+	}
 	for k := 0; k < 40; k++ {
 		g := make([]byte, 1+r.Intn(24))
 		r.Read(g)
@@ -290,11 +320,15 @@ func (in *instance) run(e *corpusEntry, multi bool) string {
 	}
 	var v interface{}
 	var err error
+	wire := e.wire
+	if e.dyn {
+		wire = dynWire()
+	}
 	pi, _ := Guard(func() {
 		if in.ser != nil {
-			v, err = in.ser.ToObject(e.wire)
+			v, err = in.ser.ToObject(wire)
 		} else {
-			v, err = in.dec.Decode(e.wire)
+			v, err = in.dec.Decode(wire)
 		}
 	})
 	if e.damaged && pi == nil && err == nil {
